@@ -4,7 +4,7 @@ from __future__ import annotations
 import ast
 from typing import Any, Dict, List, Optional, Set, Tuple
 
-from sa import AnalysisError, fd
+from sa import AnalysisError, StructuralViolation, fd
 from sa.cf import cfg_of
 from sa.pm import FuncInfo, call_name, norm, self_attr, walk_local_ordered
 from sa.report import Ob, rule
@@ -112,7 +112,8 @@ def gate(ctx: Any) -> List[Ob]:
             else:
                 obs.append(ob(R, f, st, '`done` is never cleared after construction (only the constant True is stored)', okc and v is True, '' if okc and v is True else 'stores something other than True'))
     if n_w < 2:
-        raise AnalysisError('anchor vanished: writers of Zeroconf.done')
+        zi = prog.func(ZC + '.__init__')
+        raise StructuralViolation(zi.module.rel, 'Zeroconf', 'self.done = False (constructor) / self.done = True (_close)', 'the transmit gate `done` is initialised by the constructor and set by _close', f'only {n_w} store(s) into Zeroconf.done are left: the gate is never {"closed" if any("constructor" in o.statement for o in obs) else "initialised"}')
     # _close sets done on every path where it was not set
     closef = prog.func(ZC + '._close')
     cfg = cfg_of(closef.node)
@@ -136,7 +137,7 @@ def gate(ctx: Any) -> List[Ob]:
         n_close = [n for n in c.nodes if any(call_name(x) == '_close' and self_attr(x.func.value if isinstance(x.func, ast.Attribute) else x.func, f.params[0]) is None and isinstance(x.func, ast.Attribute) and norm(x.func.value) == f.params[0] for x in n.calls())]
         n_eng = [n for n in c.nodes if any(call_name(x) == engine_call and isinstance(x.func, ast.Attribute) and norm(x.func.value).endswith('.engine') for x in n.calls())]
         if not n_close or not n_eng:
-            raise AnalysisError(f'anchor vanished: _close()/engine.{engine_call}() calls in {fn}')
+            raise StructuralViolation(f.module.rel, f.qual, 'self._close() ... self.engine.' + engine_call + '()', f'{f.name} closes the gate (_close) and then the engine', ('no call of _close()' if not n_close else f'no call of engine.{engine_call}()') + f' is left in {f.name}')
         w = c.must_pass_before_exit(c.entry, lambda n: n in n_close)
         obs.append(ob(R, f, 'self._close()', f'every path through {f.name} calls _close()', w is None, '', [x.text() for x in w] if w else None))
         for e in n_eng:
